@@ -192,6 +192,9 @@ func checkC16(c *Check) {
 		}
 	}
 	localSignerRules(c, "O-C16.6")
+	// "a chain that fails code-signing validation" is refused: the gate's validator must be the
+	// one that enforces the profile (every accepting path of it passes every requirement, O-C03.A)
+	c.floor("code-signing profile rules (shared with C03)", 40, shareRules(c, checkC03, []string{"O-C03.A"}, "O-C16.1", "code-signing profile: "))
 }
 
 func localSignerRules(c *Check, rule string) {
@@ -267,6 +270,11 @@ func jwsPayloadIsObject(c *Check, f format) {
 					n++
 					ok := returnsWhere(pg, func(s *PState) bool { return retNilErr(s, -1) })
 					unless := AnyOf(A("-IsNil(*"+dst.Key()+")"), A("-IsNil("+l.T.Key()+"!1)"), AG("-IsNil(*"+l.T.Key()+"!1)"))
+					if l.T.Name == "(*encoding/json.Decoder).Decode" {
+						// a Decoder stops after the first value: the rest of the input must be shown empty
+						eof := AG("+Eq((*encoding/json.Decoder).Token(" + l.T.Args[0].Key() + ")#1, io.EOF)")
+						c.noPathFrom(pg, "O-C16.2", "JWS: nothing follows the payload's top-level value", "after the payload was decoded with a Decoder no success return is reached unless the next token read from the same decoder reported io.EOF (Decoder.More() is false before a stray '}' or ']', and Decode alone ignores trailing data)", CallKey(l.Key), ok, &eof)
+					}
 					c.noPathFrom(pg, "O-C16.2", "JWS: decoded payload is a JSON object (not null)", "after the payload was decoded no success return is reached without testing the decoded map for nil (the JSON text null decodes into a nil map without an error and would be signed)", CallKey(l.Key), ok, &unless)
 				}
 			}
